@@ -72,7 +72,7 @@ Section Spec.
 
   Theorem eq_reflexive c a : field_refl -> value_ok c a = true -> spec_eq I c a a = Some true.
   Proof.
-    intros Hr Ha. destruct a as [| | | | | |va xs| | | |]; try discriminate Ha.
+    intros Hr Ha. destruct a as [| | | | | |va xs| | | | |]; try discriminate Ha.
     cbn [value_ok] in Ha. cbn [spec_eq]. destruct (vcfg_get va c) as [l|]; [|discriminate Ha].
     apply shape_ok_keys in Ha. rewrite (fields_refl l xs Hr Ha).
     destruct va as [n|]; [rewrite String.eqb_refl|]; reflexivity.
@@ -82,8 +82,8 @@ Section Spec.
     spec_eq I c a b = spec_eq I c b a.
   Proof.
     intros Hs Ha Hb.
-    destruct a as [| | | | | |va xs| | | |]; try discriminate Ha.
-    destruct b as [| | | | | |vb ys| | | |]; try discriminate Hb.
+    destruct a as [| | | | | |va xs| | | | |]; try discriminate Ha.
+    destruct b as [| | | | | |vb ys| | | | |]; try discriminate Hb.
     cbn [value_ok] in Ha, Hb. cbn [spec_eq].
     destruct (vcfg_get va c) as [la|] eqn:Ea; [|discriminate Ha].
     destruct (vcfg_get vb c) as [lb|] eqn:Eb; [|discriminate Hb].
@@ -98,9 +98,9 @@ Section Spec.
     spec_eq I c a b = Some true -> spec_eq I c b z = Some true -> spec_eq I c a z = Some true.
   Proof.
     intros Ht H1 H2.
-    destruct a as [| | | | | |va xs| | | |]; try discriminate H1.
-    destruct b as [| | | | | |vb ys| | | |]; try discriminate H1.
-    destruct z as [| | | | | |vz zs| | | |]; try discriminate H2.
+    destruct a as [| | | | | |va xs| | | | |]; try discriminate H1.
+    destruct b as [| | | | | |vb ys| | | | |]; try discriminate H1.
+    destruct z as [| | | | | |vz zs| | | | |]; try discriminate H2.
     cbn [spec_eq] in *.
     destruct (vcfg_get va c) as [la|] eqn:Ea; [|discriminate H1].
     destruct (vcfg_get vb c) as [lb|] eqn:Eb; [|discriminate H2].
@@ -131,6 +131,6 @@ Proof.
   - apply bind_ok in He as [ta [_ He]]. apply bind_ok in He as [l [_ He]].
     inversion He. reflexivity.
   - apply bind_ok in He as [ta [_ He]]. destruct (negb (ta_unsafe ta)).
-    + destruct m as [|? ?|? ? [|? ?]]; discriminate He.
+    + discriminate He.
     + apply bind_ok in He as [l [_ He]]. inversion He. reflexivity.
 Qed.
